@@ -50,20 +50,20 @@ PROPS = {
         race_exit_is_violation=True,
         variants=[
             dict(name="rel", tags="verif", fallback_untagged=True),
-            dict(name="race", tags="verif", race=True, fallback_untagged=True, env={"GORACE": "halt_on_error=1 exitcode=66"},
+            dict(name="race", tags="verif", race=True, fallback_untagged=True, env={"GORACE": "halt_on_error=1 exitcode=66 history_size=7"},
                  quick=dict(prop=50, prop_shards=1, grid_shards=1, timeout=300),
                  thorough=dict(prop=200, prop_shards=16, grid_shards=1, timeout=3600)),
             procs_variant(6000, 20000, tags="verif", fallback_untagged=True),
         ])),
     "C07": std("c07", 6000, 8000, fuzz=60, level="fault_enumeration", extra=dict(engine="rapid + per-frame fault-point enumeration + gofuzz")),
     "C06": std("c06", 3000, 60000, fuzz=45, extra=dict(engine="rapid (stream model + hand-written wire encoder) + table + gofuzz")),
-    "C20": std("c20", 5000, 1000000, fuzz=30, extra=dict(
+    "C20": std("c20", 5000, 300000, fuzz=30, extra=dict(
         engine="rapid (oracle by construction via reflect) + grid + gofuzz",
         # size.Of walks values through reflect; the thorough tier repeats the run under the second installed toolchain
         variants=[dict(name="rel"),
                   dict(name="go126", go="go1.26.8", optional=True, tiers=["thorough"],
                        thorough=dict(prop=20000, prop_shards=16, grid_shards=1, timeout=3600)),
-                  procs_variant(5000, 200000)])),
+                  procs_variant(5000, 100000)])),
     "C18": std("c18", 5000, 600000, fuzz=45, extra=dict(engine="rapid stateful (model-based histories with injected faults) + gofuzz over the same history generator")),
     "C16": std("c16", 5000, 15000, procs=True, fuzz=45),
     "C17": std("c17", 5000, 50000, procs=True, fuzz=45),
